@@ -1,4 +1,5 @@
 import T4V.Model.Keywords
+import T4V.Proofs.KwArray
 import T4V.Proofs.OptTokens
 /-!
 # Property C15 — LIKE n BUT equals the explicit cell card it abbreviates
@@ -12,7 +13,7 @@ def get (k : KW) : Field → Option Item
   | .mat => k.mat.map .mat
   | .rho => k.rho.map .rho
   | .lat => k.lat.map .lat
-  | .fill => k.fill.map fun (s, u, ps) => .fill s u ps
+  | .fill => k.fill.map fun | .simple s u ps => .fill s u ps | .arr s rs us ps => .fillArr s rs us ps
   | .trcl => k.trcl.map fun (s, ps) => .trcl s ps
   | .imp => none
 
@@ -186,10 +187,43 @@ theorem kwRun_append : ∀ (a b : List String) (st : KwState × List Item),
       | error e => rfl
       | ok st' => exact kwRun_append a b st'
 
+theorem arrNums_acc (star : Bool) (rs us : List String) (acc acc0 : List Item) (tok : String) (ns : List String) :
+    arrNums star rs us (acc0 ++ acc) tok ns = (arrNums star rs us acc tok ns).map fun r => (r.1, acc0 ++ r.2) := by
+  unfold arrNums
+  split <;> simp [Except.map, List.append_assoc]
+
+theorem arrTok_acc (star : Bool) (rs : List String) (need : Int) (us : List String) (acc acc0 : List Item) (tok : String) :
+    arrTok star rs need us (acc0 ++ acc) tok = (arrTok star rs need us acc tok).map fun r => (r.1, acc0 ++ r.2) := by
+  unfold arrTok
+  cases classifyU tok with
+  | num => simp only; split <;> (try split) <;> simp [Except.map]
+  | rep n =>
+    simp only
+    cases us.getLast? with
+    | none => simp [Except.map]
+    | some v => simp only; split <;> (try split) <;> simp [Except.map]
+  | shorthand => simp [Except.map]
+  | bad => simp [Except.map]
+
 /-- the items already emitted do not influence what is emitted next -/
 theorem kwStep_acc (s : KwState) (acc acc0 : List Item) (tok : String) :
     kwStep (s, acc0 ++ acc) tok = (kwStep (s, acc) tok).map fun r => (r.1, acc0 ++ r.2) := by
-  cases s <;> simp [kwStep, Except.map, List.append_assoc] <;> (try split) <;> simp_all [Except.map, List.append_assoc]
+  cases s with
+  | fillRng star rs =>
+    simp only [kwStep]
+    split
+    · simp [Except.map]
+    · cases rangesSize rs with
+      | error e => simp [Except.map]
+      | ok need =>
+        simp only
+        split
+        · split <;> simp [Except.map]
+        · exact arrTok_acc star rs need [] acc acc0 tok
+  | fillArr star rs need us => simp only [kwStep]; exact arrTok_acc star rs need us acc acc0 tok
+  | fillArrNums star rs us ns => simp only [kwStep]; exact arrNums_acc star rs us acc acc0 tok ns
+  | fillDrop star rs => simp [kwStep, Except.map]
+  | _ => simp [kwStep, Except.map, List.append_assoc] <;> (try split) <;> simp_all [Except.map, List.append_assoc]
 
 theorem kwRun_acc : ∀ (toks : List String) (s : KwState) (acc acc0 : List Item),
     kwRun (s, acc0 ++ acc) toks = (kwRun (s, acc) toks).map fun r => (r.1, acc0 ++ r.2)
@@ -204,7 +238,20 @@ theorem kwRun_acc : ∀ (toks : List String) (s : KwState) (acc acc0 : List Item
         exact kwRun_acc ts s' acc' acc0
 theorem kwFinish_acc (s : KwState) (acc acc0 : List Item) :
     kwFinish (s, acc0 ++ acc) = (kwFinish (s, acc)).map fun r => acc0 ++ r := by
-  cases s <;> simp [kwFinish, Except.map, List.append_assoc]
+  cases s with
+  | fillRng star rs =>
+    simp only [kwFinish]
+    cases rangesSize rs with
+    | error e => simp [Except.map]
+    | ok need => simp only; split <;> simp [Except.map, List.append_assoc]
+  | _ => simp [kwFinish, Except.map, List.append_assoc]
+
+/-- states reached only through index ranges that have no element (`fill=1:0 …`): the code then empties its token list
+(`del kw_list[-0:]`), so whatever follows — the BUT options included — is lost -/
+def degenerate : KwState → Bool
+  | .fillRng .. => true
+  | .fillDrop .. => true
+  | _ => false
 
 theorem finish_run_from (s : KwState) (acc0 : List Item) (ts : List String) (ib : List Item)
     (h : (match kwRun (s, []) ts with | .ok st => kwFinish st | .error e => .error e) = .ok ib) :
@@ -225,7 +272,8 @@ FILL/TRCL of cell n would swallow), then the concatenated options read as the co
 the item-level theorems above apply to what `parse_keywords` does on the tokens -/
 theorem grouping_commutes_with_but (a b : List String) (ia ib : List Item)
     (ha : groupTokens a = .ok ia) (hb : groupTokens b = .ok ib)
-    (hb0 : ∀ t, b.head? = some t → numericLead t = false) :
+    (hb0 : ∀ t, b.head? = some t → numericLead t = false)
+    (hz : ∀ s acc, kwRun (.idle, []) a = .ok (s, acc) → degenerate s = false) :
     groupTokens (applyBut a b) = .ok (ia ++ ib) := by
   unfold groupTokens applyBut at *
   rw [kwRun_append]
@@ -233,6 +281,7 @@ theorem grouping_commutes_with_but (a b : List String) (ia ib : List Item)
   | error e => simp [hka] at ha
   | ok r =>
     obtain ⟨s, acc⟩ := r
+    have hdeg : degenerate s = false := hz s acc hka
     simp only [hka] at ha ⊢
     cases b with
     | nil =>
@@ -272,18 +321,29 @@ theorem grouping_commutes_with_but (a b : List String) (ia ib : List Item)
       | wantRho => simp [kwFinish] at ha
       | wantLat => simp [kwFinish] at ha
       | fillFirst star => simp [kwFinish] at ha
+      | fillArrNums star rs us ns =>
+        simp only [kwFinish] at ha
+        cases ha
+        have : kwStep (KwState.fillArrNums star rs us ns, acc) t = .ok (startKeyword t, acc ++ [.fillArr star rs us ns]) := by
+          simp [kwStep, arrNums, ht]
+        rw [this]
+        exact finish_run_from (startKeyword t) _ ts ib hb
+      | fillArr star rs need us => simp [kwFinish] at ha
+      | fillRng star rs => simp [degenerate] at hdeg
+      | fillDrop star rs => simp [degenerate] at hdeg
 
 /-- hence, at the token level: an option of the LIKE-BUT card has the value the BUT tokens give it, else the
 value of cell n's tokens -/
 theorem like_but_tokens (f : Field) (hf : f ≠ .imp) (a b : List String) (ia ib : List Item)
     (ha : groupTokens a = .ok ia) (hb : groupTokens b = .ok ib)
-    (hb0 : ∀ t, b.head? = some t → numericLead t = false) :
+    (hb0 : ∀ t, b.head? = some t → numericLead t = false)
+    (hz : ∀ s acc, kwRun (.idle, []) a = .ok (s, acc) → degenerate s = false) :
     ∃ k, parseKeywords (applyBut a b) = .ok k ∧
       get k f = match lastOf f ib with
         | some i => some i
         | none => get (applyItems ia) f := by
   refine ⟨applyItems (ia ++ ib), ?_, like_but f hf ia ib⟩
-  simp [parseKeywords, grouping_commutes_with_but a b ia ib ha hb hb0, Except.map]
+  simp [parseKeywords, grouping_commutes_with_but a b ia ib ha hb hb0 hz, Except.map]
 
 example : get (applyItems ([.mat "1", .rho "-2.5", .u "3", .imp ["n"] "1"] ++ [.rho "-1.0", .u "4"])) .rho
     = some (.rho "-1.0") := by decide
@@ -301,5 +361,21 @@ theorem apply_but_on_text (a b : List Char) (ha : a ≠ []) (hb : b ≠ [])
       = applyBut ((optTokens a).map String.ofList) ((optTokens b).map String.ofList) := by
   rw [optTokens_append a b ha hb hlast hfirst, List.map_append]
   rfl
+
+/-- **an array FILL is read as it is written** (`parse_fill_kw`, array form): after the keyword, the index ranges,
+exactly as many plain numbers as the ranges have elements, and any numbers, the cell's FILL holds these ranges, these
+universes in this order, and the numbers as its transformation arguments — the same record whether the text stands
+on an explicit card or comes out of `LIKE n BUT` -/
+theorem array_fill_read_as_written (star : Bool) (kw r : String) (rs us ps : List String) (need : Int)
+    (hkw : startKeyword kw = .fillFirst star)
+    (hr : contains r ":" = true) (hrs : ∀ x ∈ rs, contains x ":" = true)
+    (hsz : rangesSize (r :: rs) = .ok need)
+    (hus : ∀ u ∈ us, classifyU u = .num ∧ contains u ":" = false)
+    (hlen : (us.length : Int) = need) (hpos : 0 < need)
+    (hps : ∀ p ∈ ps, numericLead p = true) :
+    (parseKeywords (kw :: r :: (rs ++ us ++ ps))).map (·.fill) = .ok (some (.arr star (r :: rs) us ps)) := by
+  unfold parseKeywords groupTokens
+  rw [array_fill_reads star kw r rs us ps need [] hkw hr hrs hsz hus hlen hpos hps]
+  simp [kwFinish, Except.map, applyItems, applyFrom, KW.set]
 
 end T4V.C15
